@@ -4,7 +4,11 @@
 //   FSINJECT_STATE : file holding the shared mutation counter (all processes of the build)
 //   FSINJECT_KILL  : k  -> kill the whole process group right before the k-th mutation
 //   FSINJECT_TEAR  : k  -> if the k-th mutation is a write, perform half of it, then kill
+//   FSINJECT_DIRORDER : asc | desc | ext:<e1>,<e2>,.. -> readdir64 on a watched directory yields the entries sorted by
+//                    name (ascending / descending), or by the rank of their extension in the list and then by name
+//                    (the order of a directory listing is unspecified: the harness owns it and explores several)
 #define _GNU_SOURCE
+#include <dirent.h>
 #include <dlfcn.h>
 #include <errno.h>
 #include <fcntl.h>
@@ -242,4 +246,79 @@ int ftruncate(int fd, off_t len) {
         if (mutation("ftruncate", watched_fd[fd], (size_t)len)) die();
     }
     return real_ftruncate(fd, len);
+}
+
+
+// ---- directory listings in a controlled order ------------------------------------------------------------
+#define MAXDIRS 64
+struct dirbuf { DIR *dir; struct dirent64 *ents; int n, pos; };
+static struct dirbuf dirbufs[MAXDIRS];
+static struct dirent64 *(*real_readdir64)(DIR *);
+static int (*real_closedir)(DIR *);
+static int dir_order = 0; // 0 = as the file system gives it, 1 = ascending, -1 = descending
+static int dir_order_init = 0;
+
+static char ext_rank[8][32];
+static int n_ext_rank = 0;
+static int rank_of(const char *name) {
+    const char *dot = strrchr(name, '.');
+    if (dot) for (int i = 0; i < n_ext_rank; i++) if (!strcmp(dot + 1, ext_rank[i])) return i;
+    return n_ext_rank;
+}
+static int cmp_ent(const void *a, const void *b) {
+    const char *na = ((const struct dirent64 *)a)->d_name, *nb = ((const struct dirent64 *)b)->d_name;
+    if (n_ext_rank) { int ra = rank_of(na), rb = rank_of(nb); if (ra != rb) return ra - rb; }
+    int c = strcmp(na, nb);
+    return dir_order >= 0 ? c : -c;
+}
+
+static int dir_is_watched(DIR *d) {
+    char link[64], path[4096], abs[4096];
+    snprintf(link, sizeof link, "/proc/self/fd/%d", dirfd(d));
+    ssize_t n = readlink(link, path, sizeof path - 1);
+    if (n <= 0) return 0;
+    path[n] = 0;
+    return is_watched(path, abs, sizeof abs);
+}
+
+struct dirent64 *readdir64(DIR *d) {
+    init();
+    if (!real_readdir64) real_readdir64 = dlsym(RTLD_NEXT, "readdir64");
+    if (!dir_order_init) {
+        dir_order_init = 1;
+        const char *o = getenv("FSINJECT_DIRORDER");
+        if (o && !strcmp(o, "asc")) dir_order = 1;
+        if (o && !strcmp(o, "desc")) dir_order = -1;
+        if (o && !strncmp(o, "ext:", 4)) {
+            dir_order = 1;
+            char buf[256];
+            strncpy(buf, o + 4, sizeof buf - 1);
+            buf[sizeof buf - 1] = 0;
+            for (char *p = strtok(buf, ","); p && n_ext_rank < 8; p = strtok(NULL, ",")) { strncpy(ext_rank[n_ext_rank], p, 31); n_ext_rank++; }
+        }
+    }
+    if (dir_order == 0) return real_readdir64(d);
+    struct dirbuf *b = NULL;
+    for (int i = 0; i < MAXDIRS; i++) if (dirbufs[i].dir == d) { b = &dirbufs[i]; break; }
+    if (!b) {
+        if (!dir_is_watched(d)) return real_readdir64(d);
+        for (int i = 0; i < MAXDIRS; i++) if (!dirbufs[i].dir) { b = &dirbufs[i]; break; }
+        if (!b) return real_readdir64(d);
+        b->dir = d; b->ents = NULL; b->n = 0; b->pos = 0;
+        struct dirent64 *e;
+        while ((e = real_readdir64(d)) != NULL) {
+            b->ents = realloc(b->ents, (b->n + 1) * sizeof(struct dirent64));
+            memcpy(&b->ents[b->n], e, sizeof(struct dirent64));
+            b->n++;
+        }
+        qsort(b->ents, b->n, sizeof(struct dirent64), cmp_ent);
+    }
+    if (b->pos >= b->n) return NULL;
+    return &b->ents[b->pos++];
+}
+
+int closedir(DIR *d) {
+    if (!real_closedir) real_closedir = dlsym(RTLD_NEXT, "closedir");
+    for (int i = 0; i < MAXDIRS; i++) if (dirbufs[i].dir == d) { free(dirbufs[i].ents); dirbufs[i].dir = NULL; dirbufs[i].ents = NULL; }
+    return real_closedir(d);
 }
